@@ -151,7 +151,7 @@ func (interp *Interpreter) execute(p *Program) (res reflect.Value, err error) {
 		if r != nil {
 			var pc [64]uintptr // 64 frames should be enough.
 			n := runtime.Callers(1, pc[:])
-			err = Panic{Value: r, Callers: pc[:n], Stack: debug.Stack()}
+			err = Panic{Value: panicValue(r), Callers: pc[:n], Stack: debug.Stack()}
 		}
 	}()
 
@@ -212,4 +212,22 @@ func (interp *Interpreter) ExecuteWithContext(ctx context.Context, p *Program) (
 	case <-done:
 	}
 	return res, err
+}
+
+// panicValue returns the value of a panic as the program gave it: the panic
+// builtin panics with the reflect value of its operand, and a value of
+// interface type is wrapped.
+func panicValue(r interface{}) interface{} {
+	v, ok := r.(reflect.Value)
+	if !ok {
+		return r
+	}
+	for v.IsValid() && v.CanInterface() {
+		vi, ok := v.Interface().(valueInterface)
+		if !ok {
+			return v.Interface()
+		}
+		v = vi.value
+	}
+	return r
 }
